@@ -1,6 +1,7 @@
 package main
 
 import (
+	"os"
 	"fmt"
 	"go/token"
 	"go/types"
@@ -129,10 +130,24 @@ func (x *Exec) runBlock(fr *frame, b *ssa.BasicBlock, st *State, reach Term, ret
 			addr := x.val(fr, i.Addr)
 			x.nilCheck(fr, addr, reach, i.Pos())
 			x.sinkStore(x.toAddr(addr), x.val(fr, i.Val), reach, x.pos(i.Pos()))
+			x.noteStore(x.toAddr(addr), x.val(fr, i.Val))
 			x.store(st, x.toAddr(addr), x.val(fr, i.Val))
 		case *ssa.MapUpdate:
+			x.noteEscapes([]Val{x.val(fr, i.Key), x.val(fr, i.Value)})
 			x.mapUpdate(fr, st, i, reach)
 		case *ssa.Go:
+			for _, a := range i.Call.Args {
+				x.noteEscapes([]Val{x.val(fr, a)})
+			}
+			if !i.Call.IsInvoke() {
+				if _, isFn := i.Call.Value.(*ssa.Function); !isFn {
+					if _, isB := i.Call.Value.(*ssa.Builtin); !isB {
+						x.noteEscapes([]Val{x.val(fr, i.Call.Value)})
+					}
+				}
+			} else {
+				x.noteEscapes([]Val{x.val(fr, i.Call.Value)})
+			}
 			x.c.Note("goroutine started in %s is not followed", fr.fn.String())
 		case *ssa.Defer:
 			d := &deferRec{instr: i, cond: reach}
@@ -150,6 +165,7 @@ func (x *Exec) runBlock(fr *frame, b *ssa.BasicBlock, st *State, reach Term, ret
 		case *ssa.RunDefers:
 			x.runDefers(fr, st, reach)
 		case *ssa.Send:
+			x.noteEscapes([]Val{x.val(fr, i.X)})
 			x.c.Note("channel send in %s modelled as no-op", fr.fn.String())
 		case ssa.Value:
 			r := x.valueInstr(fr, st, i, reach)
@@ -238,7 +254,15 @@ func (x *Exec) valueInstr(fr *frame, st *State, ins ssa.Value, reach Term) Val {
 				}
 				x.localArrs = append(x.localArrs, localArr{key: sliceKey(arr.Elem(), es[0].Path),
 					srt: SArr(SBV(64), SArr(SBV(64), es[0].Sort)), id: x.arrSliceID(t, ref), ref: ref.S, base: ref})
+				x.trackLocal(ref, nil)
 			}
+		} else if _, locs, ok := x.leafLocs(&Addr{Kind: addrObj, Base: ref, Obj: t, Path: "", FT: t}); ok && os.Getenv("GOVC_NO_LOCAL_OBJS") == "" {
+			// a local object: its content survives calls that cannot reach it
+			var cells []localCell
+			for _, l := range locs {
+				cells = append(cells, localCell{l.key, l.srt, l.idx1})
+			}
+			x.trackLocal(ref, cells)
 		}
 		return Val{T: i.Type(), L: []Term{ref}}
 	case *ssa.FieldAddr:
@@ -302,6 +326,9 @@ func (x *Exec) valueInstr(fr *frame, st *State, ins ssa.Value, reach Term) Val {
 	case *ssa.MakeChan:
 		return freshVal(x.c, fr.prefix+"_chan", i.Type())
 	case *ssa.MakeClosure:
+		for _, b := range i.Bindings {
+			x.noteEscapes([]Val{x.val(fr, b)})
+		}
 		x.c.Note("closure %s created in %s: body not followed unless called with a callback contract", i.Fn.String(), fr.fn.String())
 		return Val{T: i.Type(), L: []Term{x.c.Fresh("closure", SBV(64))}}
 	case *ssa.Slice:
